@@ -147,6 +147,12 @@ Proof.
   destruct k as [|k]; simpl in E; [|discriminate]. discriminate.
 Qed.
 
+Lemma suffixed_not_nullkey c k m : c ++ "_tmp_right_col" ++ pad k <> pad m ++ "data_algebra_temp_null_key_col".
+Proof.
+  intros E. apply (f_equal srev) in E. rewrite !srev_app, !srev_pad in E. simpl in E. rewrite !str_append_assoc in E. simpl in E.
+  destruct k as [|k]; simpl in E; [|discriminate]. discriminate.
+Qed.
+
 (* ------------------------------------------------------------------ the chosen names are good *)
 Section Good.
   Context (in_use common u : list string) (Hu : forall c, In c u -> In c in_use).
@@ -177,13 +183,16 @@ Section Good.
 
   Theorem code_good_join : good_join (code_names in_use common) common u.
   Proof.
-    constructor; cbn [code_names n_merge n_right].
+    constructor; cbn [code_names n_merge n_nullkey n_right].
     - apply code_not_user.
     - intros c Hc H. pose proof (unused_suffix_ok common in_use) as B. unfold bad_suffix in B.
       assert (X : existsb (fun c0 => mem (c0 ++ unused_suffix (List.length in_use) "_tmp_right_col" common in_use) in_use) common = true).
       { apply existsb_exists. exists c. split; [exact Hc|apply mem_In, Hu, H]. }
       rewrite X in B. discriminate.
     - intros c _. destruct (suffix_shape common in_use) as [k ->]. destruct (unused_shape "data_algebra_temp_merge_col" in_use) as [m ->]. apply suffixed_not_merge.
+    - apply code_not_user.
+    - intros c _. destruct (suffix_shape common in_use) as [k ->]. destruct (unused_shape "data_algebra_temp_null_key_col" in_use) as [m ->]. apply suffixed_not_nullkey.
+    - apply unused_sep. simpl. discriminate.
     - intros a b _ _ E. apply str_app_inv_tail in E. exact E.
   Qed.
 End Good.
@@ -196,7 +205,7 @@ Section Code.
   Theorem pandas_steps_never_capture s (f g : frame A) :
     NoDup (fcols f) -> NoDup (fcols g) -> step_refers_to_frame s f g -> pexec_code P s f g = plain P s f g.
   Proof.
-    intros Nf Ng W. unfold pexec_code. destruct s as [ops gb|ops part order rev|how on]; simpl in *.
+    intros Nf Ng W. unfold pexec_code. destruct s as [ops gb|ops part order rev|how on nk]; simpl in *.
     - apply project_no_capture. apply code_good_project. intros c Hc. unfold proj_user in Hc. rewrite in_app_iff in *.
       destruct Hc as [Hc|Hc]; [left; apply W; rewrite in_app_iff; left; exact Hc|].
       apply in_flat_map in Hc. destruct Hc as [o [Ho [<-|Hc]]]; [right; apply in_map, Ho|].
@@ -229,7 +238,7 @@ Section CodeEquivariant.
     step_refers_to_frame s f g -> step_refers_to_frame (rename_step rho s) (rename_frame rho f) (rename_frame rho g).
   Proof.
     assert (Cols : fcols (rename_frame rho f) = map rho (fcols f)) by (unfold rename_frame, fcols; rewrite !map_map; reflexivity).
-    destruct s as [ops gb|ops part order rev|how on]; simpl; intros W c Hc; rewrite Cols.
+    destruct s as [ops gb|ops part order rev|how on nk]; simpl; intros W c Hc; rewrite Cols.
     - rewrite in_app_iff in Hc. destruct Hc as [Hc|Hc].
       + apply in_map_iff in Hc. destruct Hc as [c0 [<- H0]]. apply in_map, W. rewrite in_app_iff. left. exact H0.
       + destruct (ops_args_rename _ _ Hc) as [c0 [-> H0]]. apply in_map, W. rewrite in_app_iff. right. exact H0.
